@@ -94,6 +94,7 @@ Definition dispatch_ext (op : Z) (args : list tok) : value :=
     | Some ops => VList (map VInt (snd (seq_run (if kind =? 0 then new_fixed start else new_random start) ops)))
     | None => VBad
     end
+  | 703, [TList _] => VUnit   (* a recorded concurrent trace: judged by the harness rule only *)
   | 702, [TInt d; TList ops] =>
     (* NewRandomSequencer with a generator whose Intn(n) returns min(d, n-1) *)
     match opt_map (fun t => match t with TInt 0 => Some SNext | TInt 1 => Some SRoc | _ => None end) ops with
